@@ -34,24 +34,52 @@ _CMPOPS = {
 }
 
 
+def _ways(stmts, in_loop=False):
+    """(set of ways the block can be left early, may fall through) - syntactic."""
+    ks = set()
+    for s in stmts:
+        if isinstance(s, ast.Raise):
+            return ks | {'raise'}, False
+        if isinstance(s, ast.Return):
+            return ks | {'return'}, False
+        if isinstance(s, ast.Continue):
+            if in_loop:
+                continue
+            return ks | {'continue'}, False
+        if isinstance(s, ast.Break):
+            if in_loop:
+                continue
+            return ks | {'break'}, False
+        if isinstance(s, ast.If):
+            ka, fa = _ways(s.body, in_loop)
+            kb, fb = _ways(s.orelse, in_loop) if s.orelse else (set(), True)
+            ks |= ka | kb
+            if not fa and not fb:
+                return ks, False
+        elif isinstance(s, (ast.With, ast.AsyncWith)):
+            k, f = _ways(s.body, in_loop)
+            ks |= k
+            if not f:
+                return ks, False
+        elif isinstance(s, (ast.For, ast.AsyncFor, ast.While)):
+            k, _ = _ways(s.body + s.orelse, True)
+            ks |= k
+        elif isinstance(s, ast.Try):
+            for blk in [s.body, s.orelse, s.finalbody] + [h.body for h in s.handlers]:
+                k, _ = _ways(blk, in_loop)
+                ks |= k
+    return ks, True
+
+
 def _leave_kind(stmts):
-    """'raise' / 'return' / 'continue' / 'break' if the block certainly leaves that way (syntactically)."""
+    """'raise' / 'return' / 'continue' / 'break' if the block certainly leaves, and only that way;
+    'return' if it certainly leaves but in more than one way; None if it may fall through."""
     if not stmts:
         return None
-    last = stmts[-1]
-    if isinstance(last, ast.Raise):
-        return 'raise'
-    if isinstance(last, ast.Return):
-        return 'return'
-    if isinstance(last, ast.Continue):
-        return 'continue'
-    if isinstance(last, ast.Break):
-        return 'break'
-    if isinstance(last, ast.If) and last.orelse:
-        a, b = _leave_kind(last.body), _leave_kind(last.orelse)
-        if a and b:
-            return a if a == b else 'return'
-    return None
+    ks, falls = _ways(stmts)
+    if falls or not ks:
+        return None
+    return next(iter(ks)) if len(ks) == 1 else 'return'
 
 
 def _canon_guard(c, p):
@@ -63,7 +91,7 @@ def _canon_guard(c, p):
 
 
 class Event:
-    __slots__ = ('kind', 'idx', 'line', 'guards', 'gkinds', 'loops', 'withs', 'trys', 'node', 'd')
+    __slots__ = ('kind', 'idx', 'line', 'guards', 'gkinds', 'graw', 'loops', 'withs', 'trys', 'node', 'd')
 
     def __init__(self, kind, idx, line, guards, loops, withs, trys, node, d):
         self.kind = kind
@@ -75,7 +103,10 @@ class Event:
         # one orientation per test: `if not x: A else: B` and `if x: B else: A` give A the guard
         # (x, False) and B the guard (x, True)
         self.guards = tuple(_canon_guard(c, p) for c, p, k in guards)
-        self.gkinds = tuple(k for c, p, k in guards)
+        # raw kinds: 'if' / 'if:<how the sibling arm leaves>' for a lexically enclosing test, or the way the
+        # other arm left the block for a path guard; gkinds folds the lexical ones to 'if'
+        self.graw = tuple(k for c, p, k in guards)
+        self.gkinds = tuple('if' if k.startswith('if') else k for k in self.graw)
         self.loops = loops
         self.withs = withs
         self.trys = trys
@@ -104,7 +135,7 @@ class Event:
     def cguards(self):
         """Guards under which the event may be *skipped* while the function goes
         on normally: everything except path guards whose other arm raises."""
-        return tuple(g for g, k in zip(self.guards, self.gkinds) if k != 'raise')
+        return tuple(g for g, k in zip(self.guards, self.graw) if k not in ('raise', 'if:raise'))
 
     @property
     def nguards(self):
@@ -311,7 +342,8 @@ class FuncAnalysis:
         """Execute statements; returns termination status or None."""
         n_path_guards = 0
         status = None
-        for s in stmts:
+        for i_s, s in enumerate(stmts):
+            self._rest = stmts[i_s + 1:]
             status, added = self._stmt(s)
             n_path_guards += added
             if status is not None:
@@ -321,6 +353,10 @@ class FuncAnalysis:
             residual.append(self._guards.pop())
         # the path guards a block that falls through leaves behind (from inner `if x: raise/return`)
         self._last_residual = list(reversed(residual)) if status is None else []
+        # a block that is left in more than one way (`if a: continue` ... `raise`) reports the mixed
+        # status, exactly as the same block written as an if/else chain does
+        if status is not None and any(k in ('raise', 'return', 'continue', 'break') and k != status for _, _, k in residual):
+            status = 'return'
         return status
 
     def _stmt(self, s):
@@ -542,7 +578,11 @@ class FuncAnalysis:
         cnt_pre = self._counters()
         # an arm whose sibling leaves the block is a path guard of that kind, whether the sibling is
         # written as `else:` or the arm simply follows the conditional
-        self._guards.append((c, True, _leave_kind(s.orelse) or 'if'))
+        sibling = s.orelse
+        if not sibling and _leave_kind(s.body):
+            sibling = getattr(self, '_rest', [])      # `if c: ...; return` followed by the rest of the block
+        lk = _leave_kind(sibling)
+        self._guards.append((c, True, 'if:' + lk if lk else 'if'))
         st_a = self._block(s.body)
         res_a = list(self._last_residual)
         self._guards.pop()
@@ -550,13 +590,17 @@ class FuncAnalysis:
         cnt_a = self._counters()
         self._restore_counters(cnt_pre)
         self.env = dict(pre)
-        self._guards.append((c, False, st_a or 'if'))
+        self._guards.append((c, False, 'if:' + st_a if st_a else 'if'))
         self._last_residual = []
         st_b = self._block(s.orelse) if s.orelse else None
         res_b = list(self._last_residual)
         self._guards.pop()
         env_b = self.env
-        self._merge_counters(cnt_a)
+        # counters follow the paths that go on: an arm that leaves does not contribute
+        if st_b is not None and st_a is None:
+            self._restore_counters(cnt_a)
+        elif st_a is None:
+            self._merge_counters(cnt_a)
         if st_a is not None and st_b is not None:
             self.env = env_a
             # both arms leave: report the weaker status
@@ -603,7 +647,7 @@ class FuncAnalysis:
         # condition they run under (not by the order the arms are written in)
         ifg = []
         for c, p, gk in self._guards:
-            if gk in ('if', 'return'):
+            if gk in ('if', 'return', 'if:return'):
                 g = c if p else T.not_(c)
                 ifg.extend(g[1] if g[0] == 'and' else [g])
         ifg = sorted({repr(g) for g in ifg})
